@@ -308,8 +308,22 @@ func load(T types.Type, addr *Value) Value {
 		}
 		return a
 	default:
+		// a buffer filled by PutUint64 read byte by byte
+		switch tk := (*addr).(type) {
+		case tokU64:
+			return byteValue(tk.Byte)
+		case tokPad:
+			return byteValue(tk.Byte)
+		}
 		return *addr
 	}
+}
+
+func byteValue(t *smt.Term) Value {
+	if t.Op == smt.OpConst {
+		return t.I.Uint64()
+	}
+	return SymInt{t}
 }
 
 // copyVal returns a deep copy of the aggregate parts of v (structs and arrays are values).
